@@ -466,17 +466,17 @@ func C12(tier string) int {
 		}
 	}
 	run.Coverage = map[string]any{
-		"evaluations":         cells,
-		"distinct_nontrivial": len(perNT),
-		"rule":                "clusters of n real instances wired through their real receiver handlers (messages marshalled and unmarshalled); after every successful generation each participant must at once sign with the new account addressed by name and addressed by its share public key, and list it; grid: n in 2..max, every t in 0..n+1, identifier sets (small, 10^6+i, 2^64-i, mixed), every initiator; for a valid t every order of participants returned by the peer selection and every commit completion order (all n! for small n, rotations+reversal above), and one tampered commit reply per participant and kind; oracle on success: every participant holds the account with the returned composite key, same vector/threshold/participants, share consistent with the vector, immediate signing and listing through its own services, every t-subset of partial signatures recovers a valid composite signature and no (t-1)-subset does; plus second generations of a name the participants already hold, started on a participant and on an instance outside the participant set: a reported success is judged by the same oracle, a refusal must leave the first account intact; distinct = (n,t) cells with at least one successful generation",
-		"samples":             samples.List(),
-		"exhaustive":          !capped && len(vacuous) == 0,
-		"max_n":               maxN,
-		"successful":          successes,
-		"refused":             refusals,
-		"successes_per_n_t":   perNT,
+		"evaluations":                       cells,
+		"distinct_nontrivial":               len(perNT),
+		"rule":                              "clusters of n real instances wired through their real receiver handlers (messages marshalled and unmarshalled); after every successful generation each participant must at once sign with the new account addressed by name and addressed by its share public key, and list it; grid: n in 2..max, every t in 0..n+1, identifier sets (small, 10^6+i, 2^64-i, mixed), every initiator; for a valid t every order of participants returned by the peer selection and every commit completion order (all n! for small n, rotations+reversal above), and one tampered commit reply per participant and kind; oracle on success: every participant holds the account with the returned composite key, same vector/threshold/participants, share consistent with the vector, immediate signing and listing through its own services, every t-subset of partial signatures recovers a valid composite signature and no (t-1)-subset does; plus second generations of a name the participants already hold, started on a participant and on an instance outside the participant set: a reported success is judged by the same oracle, a refusal must leave the first account intact; distinct = (n,t) cells with at least one successful generation",
+		"samples":                           samples.List(),
+		"exhaustive":                        !capped && len(vacuous) == 0,
+		"max_n":                             maxN,
+		"successful":                        successes,
+		"refused":                           refusals,
+		"successes_per_n_t":                 perNT,
 		"second_generations_of_a_held_name": reuse,
-		"vacuous_cells":       vacuous,
+		"vacuous_cells":                     vacuous,
 	}
 	run.Assumptions = []string{"services/sender/grpc and TLS between peers are not exercised (C19 covers the server side)", "the BLS library is correct"}
 	return run.Finish()
